@@ -75,13 +75,25 @@ def regen(log):
             write_if_changed(os.path.join(COQ, "gen", "Consts.v"), open(os.path.join(BUILD, "Consts.v")).read())
         g2c = os.path.join(BUILD, "go2coq")
         if os.path.exists(g2c):
+            # Pure.v + one file per group of the spec (PureX.v). A function that cannot be translated is left out of its
+            # file: the proofs that mention it stop compiling (= broken obligations of THOSE properties only).
+            gdir = os.path.join(BUILD, "gen.%d" % os.getpid())
+            shutil.rmtree(gdir, ignore_errors=True)
+            os.makedirs(gdir)
             rc, out = sh([g2c, "-repo", REPO, "-spec", os.path.join(VERIF, "go2coq", "spec.json"),
-                          "-out", os.path.join(BUILD, "Pure.v")], timeout=300)
-            log.append("go2coq rc=%d %s" % (rc, out[-2000:]))
+                          "-out", os.path.join(gdir, "Pure.v")], timeout=300)
+            log.append("go2coq rc=%d %s" % (rc, out[-3000:]))
             if rc != 0:
                 problems.append("go2coq: " + out[-3000:])
             else:
-                write_if_changed(os.path.join(COQ, "gen", "Pure.v"), open(os.path.join(BUILD, "Pure.v")).read())
+                made = set()
+                for f in sorted(glob.glob(os.path.join(gdir, "Pure*.v"))):
+                    made.add(os.path.basename(f))
+                    write_if_changed(os.path.join(COQ, "gen", os.path.basename(f)), open(f).read())
+                for f in glob.glob(os.path.join(COQ, "gen", "Pure*.v")):
+                    if os.path.basename(f) not in made:
+                        os.remove(f)
+            shutil.rmtree(gdir, ignore_errors=True)
     return problems
 
 # ------------------------------------------------------------------ Coq side
